@@ -25,6 +25,10 @@ pub struct VerifKadDump {
     pub routing_table: Vec<(usize, Vec<VerifTableNode>)>,
     /// Keys of the records in the local store (unordered).
     pub store_keys: Vec<Vec<u8>>,
+    /// Keys this node is a local provider for (unordered).
+    pub local_providers: Vec<Vec<u8>>,
+    /// Number of armed provider refresh timers of the store.
+    pub refresh_timers: usize,
 }
 
 /// One node of a k-bucket as the routing table stores it.
@@ -143,6 +147,13 @@ impl Kademlia {
                 })
                 .collect(),
             store_keys: self.store.verif_records().keys().map(|key| key.to_vec()).collect(),
+            local_providers: self
+                .store
+                .verif_local_providers()
+                .into_iter()
+                .map(|key| key.to_vec())
+                .collect(),
+            refresh_timers: self.store.verif_refresh_timers(),
         };
         probe.inner.lock().push(VerifProbeEntry::AtSelect(dump));
     }
